@@ -174,7 +174,9 @@ func runC18(c *Case, out func(string)) {
 			}
 		case "put":
 			k, v, s := tok(l[1]), tok(l[2]), parseNum(l[3])
-			mt.Put(k, v, s)
+			hk, hv := handOver(k), handOver(v)
+			mt.Put(hk, hv, s)
+			scribbleAll(hk, hv)
 			if !imm {
 				for _, e := range log {
 					if bytes.Equal(e.k, k) && e.seq == s {
@@ -185,7 +187,9 @@ func runC18(c *Case, out func(string)) {
 			}
 		case "del":
 			k, s := tok(l[1]), parseNum(l[2])
-			mt.Delete(k, s)
+			hk := handOver(k)
+			mt.Delete(hk, s)
+			scribbleAll(hk)
 			if !imm {
 				log = append(log, mver{k: k, seq: s, del: true, ord: len(log)})
 			}
@@ -311,7 +315,9 @@ func runC18Pool(c *Case, out func(string)) {
 		switch l[0] {
 		case "put":
 			k, v := tok(l[1]), tok(l[2])
-			pool.Put(k, v, parseNum(l[3]))
+			hk, hv := handOver(k), handOver(v)
+			pool.Put(hk, hv, parseNum(l[3]))
+			scribbleAll(hk, hv)
 			ref[string(k)] = last{v: v}
 			if tablesOf[string(k)] == nil {
 				tablesOf[string(k)] = map[int]bool{}
@@ -319,7 +325,9 @@ func runC18Pool(c *Case, out func(string)) {
 			tablesOf[string(k)][switches] = true
 		case "del":
 			k := tok(l[1])
-			pool.Delete(k, parseNum(l[2]))
+			hk := handOver(k)
+			pool.Delete(hk, parseNum(l[2]))
+			scribbleAll(hk)
 			ref[string(k)] = last{del: true}
 			if tablesOf[string(k)] == nil {
 				tablesOf[string(k)] = map[int]bool{}
